@@ -17,6 +17,7 @@ VALUES = [('red', ['red']), ('1px', ['1px']), ('10px 20px', ['10px', '20px']), (
           ('-webkit-box', ['-webkit-box']), ('0', ['0']), ('b c !important', ['b', 'c', '!important']), ('url("a)b")', ['url("a)b")']), ('fn(a (b c))', ['fn(a (b c))']),
           ('translate(calc(1px + 2px), 0) scale(2)', ['translate(calc(1px + 2px), 0)', 'scale(2)']), ('a(b(c) d) e', ['a(b(c) d)', 'e']), ('f(g(h(1, 2) 3), 4), 5', ['f(g(h(1, 2) 3), 4)', '5']),
           ('1px\n  2px', ['1px', '2px']), ('a/b', ['a', 'b']), ('x(y) z(w (v)) u', ['x(y)', 'z(w (v))', 'u']),
+          ('"a\\\n;b}"', ['"a\\\n;b}"']), ("'x\\\n{ y: z; }'", ["'x\\\n{ y: z; }'"]), ('"x\\";y" attr(t)', ['"x\\";y"', 'attr(t)']),
           ('"it\'s };"', ['"it\'s };"']), ("'say \"}\" {'", ["'say \"}\" {'"]), ('"a\'" \'b"{\'', ['"a\'"', '\'b"{\''])]
 
 
@@ -202,9 +203,17 @@ def oracle_C10(case, pos, m, ow, iw):
     return v
 
 
+HOSTILE_CSS = ['x { width: calc(100% - ', 'a{b:c)}', 'p{q:"never closed', '/* open', 'a{b:url(', 'm{n:o}}}', "t{u:'v\\", 'a{(((']
+
+
 def run(case, prop):
     from emmet.css_matcher import match, balanced_outward, balanced_inward, scan, split_value
     s = case['s']; viol = []; tags = {'gen:' + case['g']: 1}
+    # the matcher was used on half-typed stylesheets before (unbalanced parentheses, open strings / comments): nothing of that may be
+    # remembered by later calls
+    for junk_src in HOSTILE_CSS:
+        try: match(junk_src, len(junk_src) // 2); balanced_outward(junk_src, 3); balanced_inward(junk_src, 1); split_value(junk_src)
+        except Exception: pass
     ev = []
     n = len(s)
     try:
